@@ -13,6 +13,7 @@ Want(kind) == IF kind = "auth" THEN "auth" ELSE IF kind = "token" THEN "enrolled
 Viols(e) ==
   LET o == e.obs IN
   (IF e.res = "panic" THEN {"panic"} ELSE {}) \cup
+  (IF e.res = "hung" THEN {"handshake-or-enrolment-never-returns"} ELSE {}) \cup
   (IF e.op.op = "Schedule" /\ e.res # "panic" THEN
      (IF o.aOutcome # Want(e.op.a) \/ o.bOutcome # Want(e.op.b) THEN {"outcome-differs-from-handled-alone"} ELSE {})
    ELSE {}) \cup
